@@ -57,6 +57,65 @@ Fixpoint store_get (s : store) (k : bytes) : option bytes :=
   end.
 Definition store_put (s : store) (k c : bytes) : store := (k, c) :: s.
 
+Definition E_STORE : N := 15.     (* the storage returned an error other than "not found" *)
+
+(* The glue of history_network.go around the validator, generic in the validator (Network.validator is an interface)
+   and with scripted storage faults: gfail = every storage.Get of the call fails with an error other than
+   ErrContentNotFound, pfail = every storage.Put fails.  Inside the Section the same two functions are written out for
+   ValidateContent without faults (validate_contents_loop, getter); Proofs/History.v shows they are the instances
+   validate := validate_content get_header, gfail = pfail = false of the generic ones. *)
+
+(* Network.validateContents: for i, content := range contents { contentKey := contentKeys[i]; ... }.
+   A Get error of any kind is "not in the db"; the result of Put is ignored.  Returns the result, the store and the
+   successful Puts in order. *)
+Fixpoint validate_contents_loop_g (validate : bytes -> bytes -> res unit) (gfail pfail : bool) (keys : list bytes) (i : nat)
+         (contents : list bytes) (s : store) (puts : list (bytes * bytes)) : res unit * store * list (bytes * bytes) :=
+  match contents with
+  | [] => (Ok tt, s, puts)
+  | c :: rest =>
+      match idx keys i with
+      | Panic => (Panic, s, puts)
+      | Err e => (Err e, s, puts)
+      | Ok k =>
+          match (if gfail then None else store_get s k) with
+          | Some _ => validate_contents_loop_g validate gfail pfail keys (S i) rest s puts      (* exists in db: continue *)
+          | None =>
+              match validate k c with
+              | Ok _ =>
+                  if pfail then validate_contents_loop_g validate gfail pfail keys (S i) rest s puts
+                  else validate_contents_loop_g validate gfail pfail keys (S i) rest (store_put s k c) (puts ++ [(k, c)])
+              | Err e => (Err e, s, puts)
+              | Panic => (Panic, s, puts)
+              end
+          end
+      end
+  end.
+
+(* the three getters: local storage first (returned as decoded, it was validated when it was put), else the
+   network lookup (an arbitrary function: the network is adversarial), validate, decode, Put (a failing Put is only logged) *)
+Definition getter_g {A} (validate : bytes -> bytes -> res unit) (gfail pfail : bool) (sel : byte) (decode : bytes -> option A)
+           (lookup : bytes -> option bytes) (s : store) (hash : bytes)
+  : res A * store * list (bytes * bytes) :=
+  let key := sel :: hash in
+  if gfail then (Err E_STORE, s, []) else
+  match store_get s key with
+  | Some local => (match decode local with Some a => Ok a | None => Err E_DECODE end, s, [])
+  | None =>
+      match lookup key with
+      | None => (Err E_LOOKUP, s, [])
+      | Some content =>
+          match validate key content with
+          | Panic => (Panic, s, [])
+          | Err _ => (Err E_LOOKUP, s, [])
+          | Ok _ =>
+              match decode content with
+              | None => (Err E_LOOKUP, s, [])
+              | Some a => if pfail then (Ok a, s, []) else (Ok a, store_put s key content, [(key, content)])
+              end
+          end
+      end
+  end.
+
 Section History.
   Variables body receipts : Type.
   Variable hdr_hash : header -> bytes.                       (* header.Hash() *)
